@@ -358,7 +358,7 @@ fn glist_search(r: &mut Report, depth: usize) {
 }
 
 pub fn standin_list_reads(r: &mut Report) {
-    r.target = "List::read / read_into / position_entry / into_iter and GList::read / read_into (generic FromIterator collectors, not under contract): agree with the verified iter / iter_entries / get".into();
+    r.target = "List::into_iter (not under contract) and the N2 shims under List::read / read_into / position_entry, GList::read / read_into (collectors of a caller-chosen container): agree with the verified iter / iter_entries / get on Vec".into();
     r.bound = "all causal-delivery programs of <= 2 steps over 3 List replicas; all GList programs of <= 4 steps over 2 replicas (forked identifiers included)".into();
     let w0 = World { reps: vec![L::new(), L::new(), L::new()], log: vec![vec![]; 3], ops: vec![], desc: String::new(), next_val: b'a' };
     let mut frontier = vec![w0];
